@@ -381,10 +381,11 @@ def corpus():
 class ProgGen:
     def __init__(self, rng, multi_phase=True, max_ops=8, arrays=True, calls=True, loops=True,
                  float_literals=False, targets=None, call_targets=None, inputs=None, control=True,
-                 scalar_loops=False, pair_targets=None):
+                 scalar_loops=False, pair_targets=None, lookups=False):
         self.rng = rng
         # opt-in (C07): two-assignee calls over these pairs whose arguments read the assignees themselves
         self.pair_targets = pair_targets
+        self.lookups = lookups      # opt-in: attribute lookups z.real / z.imag / v.size
         self.multi_phase = multi_phase
         self.max_ops = max_ops
         self.arrays = arrays
@@ -405,6 +406,8 @@ class ProgGen:
         arrays = [n for n in defined if defined[n] == "arr"] if self.arrays else []
         if arrays:
             ops.append("sub")
+        if self.lookups:
+            ops.append("attr")
         g = exprdsl.Gen(self.rng, vars_num=nums, consts=(0, 1, 2, -1, 3),
                         funcs=("<func>f", "<func>g"), arrays=arrays, kwnames=("k", "m"), ops=ops,
                         float_consts=(0.5,) if self.float_literals else ())
